@@ -203,24 +203,36 @@ def _raise_discharged(ctx, f, rz):
 
 
 def _enclosing_chain(body, rz):
-    for st in body:
-        if isinstance(st, ast.If):
-            accepted, cur = [], st
-            var = None
-            while True:
-                t = cur.test
-                if isinstance(t, ast.Compare) and len(t.ops) == 1 and isinstance(t.ops[0], ast.Eq) and isinstance(t.left, ast.Name):
-                    if var is None:
-                        var = t.left.id
-                    if t.left.id != var:
-                        break
-                    accepted.append(t.comparators[0])
-                else:
-                    break
-                if len(cur.orelse) == 1 and isinstance(cur.orelse[0], ast.If):
-                    cur = cur.orelse[0]
+    """(var, accepted constants) when the raise is reached only after var was found different from each of them:
+    on the way to the raise every enclosing `if` compares the same name with a constant, and the raise sits on the side
+    where they differ (`if v == C: .. else: <raise>` or `if v != C / not (v == C): <raise> else: ..`)."""
+    def eq_test(t):
+        neg = False
+        while isinstance(t, ast.UnaryOp) and isinstance(t.op, ast.Not):
+            t, neg = t.operand, not neg
+        if isinstance(t, ast.Compare) and len(t.ops) == 1 and isinstance(t.ops[0], (ast.Eq, ast.NotEq)) and isinstance(t.left, ast.Name):
+            equal_when_true = isinstance(t.ops[0], ast.Eq)
+            return t.left.id, t.comparators[0], (equal_when_true != neg)
+        return None
+
+    def search(stmts, var, accepted):
+        for st in stmts:
+            if st is rz:
+                return var, accepted
+            if isinstance(st, ast.If):
+                et = eq_test(st.test)
+                in_body = any(n is rz for s_ in st.body for n in ast.walk(s_))
+                in_else = any(n is rz for s_ in st.orelse for n in ast.walk(s_))
+                if not (in_body or in_else):
                     continue
-                if any(s is rz for s in cur.orelse):
-                    return var, accepted
-                break
-    return None
+                if et is None or (var is not None and et[0] != var):
+                    return None
+                v, c, eq_true = et
+                if (in_else and eq_true) or (in_body and not eq_true):      # the raise is on the "different" side
+                    return search(st.orelse if in_else else st.body, v, accepted + [c])
+                return None
+        return None
+    r = search(body, None, [])
+    if r is None or r[0] is None or not r[1]:
+        return None
+    return r
